@@ -131,6 +131,13 @@ class World:
         def rec(kind):
             def f(*a, **k):
                 I.effects.append(Effect(kind, args=a, kwargs=k, buf=b))
+                if self.copy_bytes and kind == "update_from_buffer" and len(a) == 2 and isinstance(a[1], (bytes, bytearray)) and topoly(a[0]) is not None:
+                    # known byte strings are kept (per path: the store lives in I.mem under a reserved key)
+                    I.mem.setdefault("#bytes", {})[repr(topoly(a[0]))] = (topoly(a[0]), bytes(a[1]))
+                if self.copy_bytes and kind == "to_bytearray" and len(a) == 2 and topoly(a[0]) is not None and topoly(a[1]) is not None and topoly(a[1]).is_const():
+                    ent = I.mem.get("#bytes", {}).get(repr(topoly(a[0])))
+                    if ent is not None and len(ent[1]) >= topoly(a[1]).const_value():
+                        return bytearray(ent[1][: topoly(a[1]).const_value()])
                 if kind == "update_from_xbuffer" and self.copy_bytes and len(a) == 4:
                     dst, src, nb = topoly(a[0]), topoly(a[2]), topoly(a[3])
                     if dst is not None and src is not None and nb is not None and nb.is_const():
@@ -148,6 +155,12 @@ class World:
                         for np_, val in moved:
                             I.mem[repr(np_)] = val
                             self.polys[repr(np_)] = np_
+                        bs = I.mem.get("#bytes", {})
+                        mv = [(dst + (pp - src), data) for pp, data in list(bs.values()) if (pp - src).is_const() and 0 <= (pp - src).const_value() < nb.const_value()]
+                        for kk in [kk for kk, (pp, _d) in list(bs.items()) if (pp - dst).is_const() and 0 <= (pp - dst).const_value() < nb.const_value()]:
+                            del bs[kk]
+                        for np_, data in mv:
+                            I.mem.setdefault("#bytes", {})[repr(np_)] = (np_, data)
                 if kind == "to_bytearray":
                     return Opaque(f"bytes@{a[0]!r}+{a[1]!r}")
                 if kind == "allocate":
